@@ -395,7 +395,7 @@ func runSrcFamilyN(c *vf.Check, cases []srcCase, callsOf func(i int) int, o srcO
 
 	// (box helpers: see boxElem / boxAdapter)
 	// go-co packages: one program per file, PerPkg per package
-	coR := &srcRenderer{md: coMode, api: api, form: o.Form, boxV: o.BoxVal}
+	coR := &srcRenderer{md: coMode, api: api, form: o.Form, boxV: o.BoxVal, plainVars: o.Opt || o.By}
 	hdr := func(pkg string) string {
 		if o.By {
 			// a side-effect import and an import used only by non-generator code: both must survive
@@ -415,7 +415,26 @@ func runSrcFamilyN(c *vf.Check, cases []srcCase, callsOf func(i int) int, o srcO
 	if o.By {
 		extraFiles = map[string]string{"embed.txt": "hello"}
 	}
-	u := unitSpec{N: np, PerPkg: o.PerPkg, Stage: o.Stage, Hdr: hdr, Files: extraFiles,
+	plain := func(pkg string, live []int) string {
+		var b strings.Builder
+		for _, i := range live {
+			fn := fmt.Sprintf("G%d", i)
+			if o.By {
+				fn = fmt.Sprintf("B%d", i)
+			}
+			if inPlainFile(fn) {
+				b.WriteString(strings.TrimPrefix(pkgVars(arr(run.Progs[i]), fn), "\n"))
+			}
+		}
+		if b.Len() == 0 {
+			return ""
+		}
+		return "package " + pkg + "\n\n// an ordinary file of the package (not processed by the tool)\n" + b.String()
+	}
+	if !(o.Opt || o.By) {
+		plain = nil
+	}
+	u := unitSpec{N: np, PerPkg: o.PerPkg, Stage: o.Stage, Hdr: hdr, Files: extraFiles, Plain: plain,
 		File: func(i int) string {
 			if o.By {
 				return coR.byFunc(fmt.Sprintf("B%d", i), arr(run.Progs[i]))
@@ -519,6 +538,7 @@ type unitSpec struct {
 	File   func(i int) string                  // declarations of unit i (file p<i>_co.go)
 	All    func(pkg string, live []int) string // registration file all_co.go for the units still alive
 	Files  map[string]string                   // extra (non-Go) files of every package, name -> content
+	Plain  func(pkg string, live []int) string // optional ordinary (untagged, not processed) Go file plain.go of the package
 }
 
 // compileUnits writes the packages gen000.., checks that the rendered source
@@ -550,6 +570,11 @@ func compileUnits(c *vf.Check, dir string, u unitSpec) (status []string, npk int
 		writeFile(filepath.Join(d, "all_co.go"), u.Hdr(name)+u.All(name, live))
 		for fn, content := range u.Files {
 			writeFile(filepath.Join(d, fn), content)
+		}
+		if u.Plain != nil {
+			if src := u.Plain(name, live); src != "" {
+				writeFile(filepath.Join(d, "plain.go"), src)
+			}
 		}
 		return d
 	}
